@@ -3,6 +3,7 @@ package checks
 import (
 	"bytes"
 	"fmt"
+	"strings"
 	"sync"
 
 	"verif/harness/drv"
@@ -87,7 +88,10 @@ func runVersionDeleteConcurrency(e *c07Env, round int) {
 				var resp *drv.Resp
 				var err error
 				what := ""
-				switch (i + c) % 5 {
+				switch (i + c) % 6 {
+				case 5:
+					what = "HEAD " + v.key + "?versionId"
+					resp, err = cl.Do("HEAD", e.tcp.URL(drv.ObjPath(b, v.key), drv.Q("versionId", v.id)), nil, nil, 0)
 				case 0:
 					what = "GET " + v.key
 					resp, err = cl.Do("GET", e.tcp.URL(drv.ObjPath(b, v.key), ""), nil, nil, 0)
@@ -115,6 +119,25 @@ func runVersionDeleteConcurrency(e *c07Env, round int) {
 			}
 		}(c)
 	}
+	// writers on keys of their own: every write takes the backend's lock, which is what a reader
+	// that locks twice, or a writer that only read-locks, collides with
+	for c := 0; c < 2; c++ {
+		wg.Add(1)
+		go func(c int) {
+			defer wg.Done()
+			cl := drv.NewTCPClient()
+			defer cl.Close()
+			<-start
+			for i := 0; i < 4*len(vers); i++ {
+				_, body := e.reg.mint(fmt.Sprintf("noise-%d", c), false)
+				if resp, err := cl.Do("PUT", e.tcp.URL(drv.ObjPath(b, fmt.Sprintf("noise-%d", c)), ""), nil, bytes.NewReader(body), int64(len(body))); err != nil || resp.Status != 200 {
+					bad("unexpected-status", fmt.Sprintf("PUT of an unrelated key during concurrent version deletes: %v %v", resp, err))
+					return
+				}
+				r.Count("writes_during_version_deletes", 1)
+			}
+		}(c)
+	}
 	close(start)
 	wg.Wait()
 	r.Eval(1)
@@ -139,8 +162,14 @@ func runVersionDeleteConcurrency(e *c07Env, round int) {
 		bad("version-listing-failed", resp.String())
 		return
 	}
-	if len(vr.Entries) != remain {
-		bad("version-lost-update", fmt.Sprintf("%d versions remain, ListObjectVersions shows %d entries", remain, len(vr.Entries)))
+	listedRemain := 0
+	for _, en := range vr.Entries {
+		if !strings.HasPrefix(en.Key, "noise-") {
+			listedRemain++
+		}
+	}
+	if listedRemain != remain {
+		bad("version-lost-update", fmt.Sprintf("%d versions remain, ListObjectVersions shows %d entries", remain, listedRemain))
 	}
 	for _, k := range keys {
 		g := e.s.Get(b, k)
@@ -149,4 +178,53 @@ func runVersionDeleteConcurrency(e *c07Env, round int) {
 			bad("unexpected-status", fmt.Sprintf("after the version deletes: GET %s: %s, list: %s", k, g, l))
 		}
 	}
+}
+
+// runVersionedBursts: eight clients upload the same key of an Enabled bucket at the same
+// moment (a start barrier, nothing else in between), so that uploads really contend for the
+// backend's lock. Whatever order they were stored in, the version an unqualified read serves
+// afterwards is the newest one: one more upload followed by the deletion of exactly that
+// version restores the same answer (pushPop), also after the served version itself is removed.
+func runVersionedBursts(e *c07Env, round int) {
+	r := e.r
+	b := fmt.Sprintf("conc-burst-%d", round)
+	if cr := e.s.CreateBucket(b); cr.Status != 200 {
+		return
+	}
+	setVersioning(e.s, b, "Enabled")
+	key := "bk"
+	for burst := 0; burst < 12; burst++ {
+		var wg sync.WaitGroup
+		start := make(chan struct{})
+		for c := 0; c < 8; c++ {
+			wg.Add(1)
+			go func(c int) {
+				defer wg.Done()
+				cl := drv.NewTCPClient()
+				defer cl.Close()
+				_, body := e.reg.mint(key, false)
+				<-start
+				if c == 7 && burst%3 == 2 {
+					cl.Do("DELETE", e.tcp.URL(drv.ObjPath(b, key), ""), nil, nil, 0)
+					return
+				}
+				cl.Do("PUT", e.tcp.URL(drv.ObjPath(b, key), ""), nil, bytes.NewReader(body), int64(len(body)))
+			}(c)
+		}
+		close(start)
+		wg.Wait()
+		r.Count("versioned_bursts", 1)
+		for depth := 0; depth < 2; depth++ {
+			if !pushPop(e, b, key, "burst", fmt.Sprintf("after a burst of 8 simultaneous versioned writes to one key (burst %d, depth %d)", burst, depth)) {
+				return
+			}
+			cur := readCurrent(e, b, key)
+			if cur.status != 200 || cur.ver == "" {
+				break
+			}
+			e.s.Do(&drv.Req{Method: "DELETE", Path: drv.ObjPath(b, key), Query: drv.Q("versionId", cur.ver)})
+		}
+	}
+	r.Eval(1)
+	r.Distinct(fmt.Sprintf("versioned-bursts|%d", round))
 }
